@@ -639,6 +639,232 @@ def mini_universe(chk: Check, pa, maxvar, maxcount):
 
 
 # ------------------------------------------------------------------------------------------
+# part 1b: instances with history (LLUDPFrameInst.tla)
+# ------------------------------------------------------------------------------------------
+BAD_CLASSES = ("unset-var", "int-out-of-range", "multiple-count", "unknown-block", "block-after-missing-block",
+               "unknown-message", "variable-too-long")
+
+
+def make_bad(I: Impl, cls: str, shape: dict, hdr: dict, blocks_py: list):
+    """A message outside the template language, derived from a conformant one of `shape`; None if the class
+    does not apply to this template."""
+    import copy
+    bp = copy.deepcopy(blocks_py)
+    if cls == "unknown-message":
+        return I.Message("NoSuchMessageXyz", I.Block("Foo", Bar=1), packet_id=hdr["pid"])
+    if cls == "unset-var":
+        for insts in bp:
+            if insts and insts[-1]:
+                insts[-1].pop(sorted(insts[-1])[-1])
+                return build_message(I, shape, hdr, bp)
+        return None
+    if cls == "int-out-of-range":
+        for sb, insts in zip(shape["blocks"], bp):
+            for v in sb["vars"]:
+                if v["t"] in INT_TYPES and v["t"] != "BOOL" and insts:
+                    w, signed = INT_TYPES[v["t"]]
+                    insts[-1][v["name"]] = (1 << (8 * w - (1 if signed else 0)))
+                    return build_message(I, shape, hdr, bp)
+        return None
+    if cls == "variable-too-long":
+        for sb, insts in zip(shape["blocks"], bp):
+            for v in sb["vars"]:
+                if v["t"] == "Variable" and v["size"] == 1 and insts:
+                    insts[-1][v["name"]] = b"\x01" * 256
+                    return build_message(I, shape, hdr, bp)
+        return None
+    if cls == "multiple-count":
+        for k, sb in enumerate(shape["blocks"]):
+            if sb["kind"] == "Multiple" and sb["n"] > 1 and k < len(bp):
+                bp[k] = bp[k][:-1]
+                return build_message(I, shape, hdr, bp)
+        return None
+    if cls == "unknown-block":
+        msg = build_message(I, shape, hdr, bp)
+        msg.add_block(I.Block("NoSuchBlockXyz", Foo=1))
+        return msg
+    if cls == "block-after-missing-block":
+        if len(shape["blocks"]) < 2 or len(bp) < 2:
+            return None
+        msg = I.Message(shape["name"], packet_id=hdr["pid"], flags=hdr["flags"] & ~0x10)
+        for sb, insts in list(zip(shape["blocks"], bp))[1:]:
+            msg.create_block_list(sb["name"])
+            for inst in insts:
+                msg.add_block(I.Block(sb["name"], **inst))
+        return msg
+    raise MachineryError("unknown bad class %r" % cls)
+
+
+def ev_ser(I, ser, inst, shape, hdr, blocks_py, typed, fill=False):
+    st, msg = impl_call(build_message, I, shape, hdr, blocks_py, fill)
+    st, data = impl_call(lambda: bytes(ser.serialize(msg))) if st == "ok" else (st, msg)
+    ev = {"ev": "Ser", "inst": inst, "T": strip_names(shape), "m": dict(hdr_typed(hdr), blocks=typed), "fill": 1 if fill else 0,
+          "res": "ok" if st == "ok" else "raise", "d": list(data) if st == "ok" else []}
+    if st != "ok":
+        ev["exc"] = data
+    return ev, (data if st == "ok" else None)
+
+
+def ev_bad(I, ser, inst, cls, msg):
+    st, r = impl_call(lambda: bytes(ser.serialize(msg)))
+    return {"ev": "Bad", "inst": inst, "cls": cls, "res": "ok" if st == "ok" else "raise", "exc": r if st != "ok" else ""}
+
+
+def ev_des(I, des, inst, shape, data: bytes):
+    def decode():
+        m2 = des.deserialize(data)
+        return project_header(m2), project_blocks(m2, shape), m2.name
+    st, r = impl_call(decode)
+    ev = {"ev": "Des", "inst": inst, "T": strip_names(shape), "d": list(data), "res": "ok" if st == "ok" else "raise",
+          "flags": 0, "pid": [0, 0], "extra": [], "acks": [], "blocks": []}
+    if st == "ok":
+        ev.update(r[0])
+        ev["blocks"] = r[1] if r[2] == shape["name"] else [[[BAD]]]
+    else:
+        ev["exc"] = r
+    return ev
+
+
+def validate_instance_traces(chk: Check, label, traces, details, shards=8):
+    """traces: lists of Ser/Bad/Des events, one serializer + one deserializer instance each."""
+    flat = []
+    for t, d in zip(traces, details):
+        for e in t:
+            e["eid"] = len(flat)
+            flat.append((e, d))
+    acc, rej, results = common.validate_traces("LLUDPFrame_Trace", TRACE_CFG, traces, chk.scratch, shards=shards, tag="inst")
+    chk.cov["traces_validated_against_impl"] += len(traces)
+    chk.count(len(flat))
+
+    def detail_of(eid):
+        e, d = flat[eid]
+        tr = next(t for t in traces if any(x is e for x in t))
+        return dict(d, failing_event=common._clip({k: v for k, v in e.items() if k != "T"}, 60),
+                    calls=[(x["ev"], x.get("cls", ""), x["res"], x.get("exc", "")) for x in tr])
+    report_rt_fails(chk, label, traces, results, rej, detail_of)
+
+
+def instance_histories_mini(chk: Check, depth):
+    """Every history TLC enumerates over the call alphabet of LLUDPFrameInst, each on one fresh pair of real
+    serializer / deserializer instances loaded with the miniature templates."""
+    I = impl()
+    cfg = "SPECIFICATION Spec\nCONSTANTS Depth = %d KeepsOnRefusal = FALSE MBT = TRUE\nINVARIANT Independent\nINVARIANT Empty\n" % depth
+    p = os.path.join(chk.scratch, "inst.cfg")
+    with open(p, "w") as f:
+        f.write(cfg)
+    res = common.run_tlc(os.path.join(common.SPECS, "LLUDPFrameInst.tla"), p, workers=1, scratch=chk.scratch)
+    chk.require_model_ok(res, "LLUDPFrameInst depth %d" % depth)
+    table, hists = None, []
+    for r in res.printed():
+        if "universe" in r:
+            table = r
+        elif "hist" in r:
+            hists.append(tuple(r["hist"]))
+    if table is None or len(hists) < 50:
+        raise MachineryError("LLUDPFrameInst exported %d histories" % len(hists))
+    universe = table["universe"]
+    text = render_template_text(universe)
+
+    def py_of(tid, m):
+        shape = universe[tid - 1]
+        hdr = {"flags": m["flags"], "pid": unhl(m["pid"]), "extra": bytes(m["extra"]), "acks": [unhl(a) for a in m["acks"]]}
+        bp = [[{v["name"]: from_typed(v, tv) for v, tv in zip(sb["vars"], inst) if tv["k"] != "unset"} for inst in insts]
+              for sb, insts in zip(shape["blocks"], m["blocks"])]
+        return shape, hdr, bp
+    base_of = {g["tid"]: g for g in table["good"].values()}
+    traces, details = [], []
+    for h in sorted(set(hists)):
+        st, r = impl_call(I.codec, text, False)
+        if st != "ok":
+            raise MachineryError("cannot load the miniature templates: %s" % r)
+        ser, des, _ = r
+        evs = []
+        for x in h:
+            if x in table["good"]:
+                g = table["good"][x]
+                shape, hdr, bp = py_of(g["tid"], g["m"])
+                evs.append(ev_ser(I, ser, "s", shape, hdr, bp, g["m"]["blocks"])[0])
+            elif x in table["bad"]:
+                b = table["bad"][x]
+                if "m" in b:
+                    shape, hdr, bp = py_of(b["tid"], b["m"])
+                    evs.append(ev_ser(I, ser, "s", shape, hdr, bp, b["m"]["blocks"])[0])
+                else:
+                    if b["tid"]:
+                        shape, hdr, bp = py_of(b["tid"], base_of[b["tid"]]["m"])
+                        st2, msg = impl_call(make_bad, I, b["cls"], shape, hdr, bp)
+                    else:
+                        st2, msg = impl_call(make_bad, I, b["cls"], universe[0], {"pid": 1, "flags": 0, "acks": [], "extra": b""}, [])
+                    if st2 != "ok" or msg is None:
+                        raise MachineryError("cannot build the %s message: %r" % (b["cls"], msg))
+                    evs.append(ev_bad(I, ser, "s", b["cls"], msg))
+            else:
+                data = bytes(table["dgram"][x])
+                tname = {"D1": 1, "D2": 3, "D3": 2}[x]
+                evs.append(ev_des(I, des, "d", universe[tname - 1], data))
+        traces.append(evs)
+        details.append({"history": list(h)})
+        if any(x in table["bad"] or x == "D2" for x in h[:-1]):
+            chk.nontrivial(("inst", h))
+    refused = sum(1 for t in traces for e in t if e["res"] == "raise")
+    chk.cov["instance_histories_mini"] = len(traces)
+    chk.cov["instance_calls_refused_mini"] = refused
+    if refused == 0 and not chk.violations:
+        raise MachineryError("vacuous run: no call of the instance histories was refused")
+    chk.sample({"binding": "TLC-enumerated call history on one serializer/deserializer instance, validated by TLC",
+                "calls": [(e["ev"], e.get("cls", ""), e["res"]) for e in traces[len(traces) // 2]]})
+    validate_instance_traces(chk, "inst-mini", traces, details)
+
+
+def instance_walks_real(chk: Check, n_walks, length):
+    """Long-lived instances over the real template: conformant messages interleaved with every class of refused
+    message and with unparseable datagrams."""
+    I = impl()
+    rng = chk.rng
+    pairs = [p for p in real_shapes(chk) if p[0]["blocks"]]
+    traces, details = [], []
+    by_class = {}
+    for w in range(n_walks):
+        ser, des, _ = I.codec(None, False)
+        evs, calls = [], []
+        last = None
+        for step in range(length):
+            shape, tmpl = rng.choice(pairs)
+            hdr, bp, ty, _ = gen_message(I, rng, shape, tmpl, counts=(1, 2), maxlen=8, hdr=gen_header(rng, rich=False))
+            c = rng.random()
+            if c < 0.4:
+                cls = BAD_CLASSES[(w + step) % len(BAD_CLASSES)]
+                if cls == "multiple-count":
+                    mp = [p for p in pairs if any(b["kind"] == "Multiple" for b in p[0]["blocks"])]
+                    shape, tmpl = rng.choice(mp)
+                    hdr, bp, ty, _ = gen_message(I, rng, shape, tmpl, counts=(1,), maxlen=8, hdr=gen_header(rng, rich=False))
+                st, msg = impl_call(make_bad, I, cls, shape, hdr, bp)
+                if st != "ok" or msg is None:
+                    continue
+                e = ev_bad(I, ser, "s%d" % w, cls, msg)
+                evs.append(e)
+                by_class[cls + ":" + e["res"]] = by_class.get(cls + ":" + e["res"], 0) + 1
+                calls.append(cls)
+            elif c < 0.5 and last is not None:
+                sh, data = last
+                cut = data[:max(7, len(data) - rng.randrange(1, 6))] if rng.random() < 0.7 else data[:6]
+                evs.append(ev_des(I, des, "d%d" % w, sh, cut))
+                calls.append("des-garbage")
+            else:
+                e, data = ev_ser(I, ser, "s%d" % w, shape, hdr, bp, ty)
+                evs.append(e)
+                calls.append("ser " + shape["name"])
+                if data is not None:
+                    evs.append(ev_des(I, des, "d%d" % w, shape, data))
+                    last = (shape, data)
+        traces.append(evs)
+        details.append({"walk": w, "calls": calls})
+        chk.nontrivial(("walk", w))
+    chk.cov["instance_walk_bad_calls_real"] = dict(sorted(by_class.items()))
+    validate_instance_traces(chk, "inst-real", traces, details)
+
+
+# ------------------------------------------------------------------------------------------
 # part 2: every real template
 # ------------------------------------------------------------------------------------------
 
@@ -783,8 +1009,12 @@ def run(chk: Check):
     ]
     if chk.tier == "quick":
         mini_universe(chk, "{0, 65}", 2, 2)
+        instance_histories_mini(chk, 3)
+        instance_walks_real(chk, 40, 12)
         real_templates(chk, 2, 30, 6)
     else:
         mini_universe(chk, "{0, 65, 255}", 3, 2)
+        instance_histories_mini(chk, 4)
+        instance_walks_real(chk, 600, 16)
         real_templates(chk, 40, 600, 60, zero_rounds=6)
     chk.cov["exhaustive"] = True
